@@ -609,6 +609,11 @@ pub fn run(mode: &str, tier: Tier, seed: u64, o: &mut Out) {
     let corpus = [
         "(pgcase c02 (((((1 1)) ((0 0 0 0))) 0)) (((1 1)) ((0 0 0 0))) default)",
         "(pgcase c02 (((((0 0)) ()) 0)) (((0 0) (1 1)) ()) default)",
+        // D5, smallest witness (Theorem c05_portgraph_complete_refuted_line_through_root)
+        "(pgcase c02 (((((2 2) (2 0)) ((0 1 1 0) (0 0 0 1))) 0)) (((2 2) (2 0)) ((0 1 1 0) (0 0 0 1))) default)",
+        // D6, smallest witness (Theorem c05_portgraph_complete_refuted_root_hidden): found in itself, hidden by one more port
+        "(pgcase c02 (((((0 1) (1 1) (2 0) (0 1)) ((0 0 1 0) (1 0 2 0) (3 0 2 1))) 0)) (((0 1) (1 1) (2 0) (0 1)) ((0 0 1 0) (1 0 2 0) (3 0 2 1))) default)",
+        "(pgcase c02 (((((0 1) (1 1) (2 0) (0 1)) ((0 0 1 0) (1 0 2 0) (3 0 2 1))) 0)) (((0 1) (1 2) (2 0) (0 1)) ((0 0 1 0) (1 0 2 0) (3 0 2 1))) default)",
     ];
     for line in corpus {
         replay(line, mode, o);
